@@ -674,6 +674,12 @@ func c17Concurrent(c *core.Ctx, r *rng.R) *core.Result {
 		in      cacheIn
 		content string
 		via     bool // render through RenderTemplateToDocument instead of RenderToDocument
+		asDoc   bool // load: the version is a document (LoadTemplateFromDocument) whose paragraph carries the content
+	}
+	docOf := func(content string) *document.Document {
+		d := document.New()
+		d.AddParagraph(content)
+		return d
 	}
 	plans := make([][]planned, nClients)
 	ver := 0
@@ -683,7 +689,8 @@ func c17Concurrent(c *core.Ctx, r *rng.R) *core.Result {
 			switch x := r.Intn(10); {
 			case x < 4:
 				ver++
-				plans[ci] = append(plans[ci], planned{in: cacheIn{"load", nm, ver}, content: fmt.Sprintf("VER%d {{x}} %s", ver, c17Body(r, "b"))})
+				// a name may hold a text template at one moment and a document template at the next
+				plans[ci] = append(plans[ci], planned{in: cacheIn{"load", nm, ver}, content: fmt.Sprintf("VER%d {{x}} %s", ver, c17Body(r, "b")), asDoc: r.Chance(1, 3)})
 			case x < 8:
 				plans[ci] = append(plans[ci], planned{in: cacheIn{Op: "render", Name: nm}, via: r.Bool()})
 			case x < 9:
@@ -699,16 +706,31 @@ func c17Concurrent(c *core.Ctx, r *rng.R) *core.Result {
 	}
 	// expected render result of every version, computed alone in a private engine
 	alone, aloneVia := map[int]map[string]string{}, map[int]map[string]string{}
-	for _, pl := range plans {
-		for _, p := range pl {
+	for pi := range plans {
+		for pj := range plans[pi] {
+			p := &plans[pi][pj]
 			if p.in.Op == "load" {
-				e2 := document.NewTemplateEngine()
-				e2.LoadTemplate("x", p.content)
-				if d, err := e2.RenderTemplateToDocument("x", data); err == nil && d != nil {
-					aloneVia[p.in.Ver], _ = renderOutcome(d)
-				}
-				if d, err := e2.RenderToDocument("x", data); err == nil && d != nil {
-					alone[p.in.Ver], _ = renderOutcome(d)
+				for attempt := 0; attempt < 2; attempt++ {
+					e2 := document.NewTemplateEngine()
+					if p.asDoc {
+						e2.LoadTemplateFromDocument("x", docOf(p.content))
+					} else {
+						e2.LoadTemplate("x", p.content)
+					}
+					delete(aloneVia, p.in.Ver)
+					delete(alone, p.in.Ver)
+					if d, err := e2.RenderTemplateToDocument("x", data); err == nil && d != nil {
+						aloneVia[p.in.Ver], _ = renderOutcome(d)
+					}
+					if d, err := e2.RenderToDocument("x", data); err == nil && d != nil {
+						alone[p.in.Ver], _ = renderOutcome(d)
+					}
+					// the history needs to tell the versions apart: a document version whose render does not show its marker (the
+					// engine drops or rewrites the paragraph that carries it - not this check's business) is loaded as text instead
+					if !p.asDoc || (verRe.MatchString(aloneVia[p.in.Ver]["word/document.xml"]) && verRe.MatchString(alone[p.in.Ver]["word/document.xml"])) {
+						break
+					}
+					p.asDoc = false
 				}
 			}
 		}
@@ -752,7 +774,13 @@ func c17Concurrent(c *core.Ctx, r *rng.R) *core.Result {
 				var out interface{}
 				switch p.in.Op {
 				case "load":
-					core.Catch(func() { eng.LoadTemplate(p.in.Name, p.content) })
+					core.Catch(func() {
+						if p.asDoc {
+							eng.LoadTemplateFromDocument(p.in.Name, docOf(p.content))
+						} else {
+							eng.LoadTemplate(p.in.Name, p.content)
+						}
+					})
 					atomic.AddInt64(&progress, 1)
 				case "remove":
 					core.Catch(func() { eng.RemoveTemplate(p.in.Name) })
